@@ -8,9 +8,16 @@ STARTED = []         # (args, kwargs) of every worker invocation, in order
 
 
 def reset():
-    global GATE
+    global GATE, cur
     GATE = asyncio.Event()
     STARTED.clear()
+    cur = w
+
+
+def swap():
+    """`harness.wmod.cur` now names the other worker: a dotted path means what it means when the command is executed"""
+    global cur
+    cur = w2 if cur is w else w
 
 
 def release():
@@ -36,9 +43,22 @@ async def w2(x=None, y=None):
     return x
 
 
+class Boom17(Exception):
+    pass
+
+
+async def boom(*args, **kwargs):
+    """a worker that fails at once: what a later flush / gather-and-close without --return-exceptions then raises"""
+    STARTED.append((args, tuple(sorted(kwargs.items()))))
+    raise Boom17("boom-17")
+
+
 def cb(task_id):
     return None
 
 
 def notcoro(x=None):
     return x
+
+
+cur = w
